@@ -811,7 +811,7 @@ def run(tier='quick', replay=None):
                 continue
             if k and k in by_key:
                 continue
-            violations.append({'key': 'obligation:' + name, 'what': 'Coq obligation %s in %s no longer checks' % (name, f),
+            violations.append({'key': 'obligation:' + name, 'what': ('source-shape obligation %s (tie between %s and the theorems of props/C08.v) no longer checks' if name.startswith('conn_shape_') else 'Coq obligation %s in %s no longer checks') % (name, f),
                                'theorem': name, 'file': f, 'message': msg, 'found_input': False})
         for d in res.disagreements:
             c = d['case']
